@@ -13,14 +13,16 @@ DocumentedPanics == { <<"CustomExtension::new_acme_identifier", "digest-length-n
 
 (* generation functions and the hostile values a caller can construct with safe public API *)
 GenFns == {"self_signed", "signed_by", "serialize_request", "crl_signed_by"}
-HostileClasses ==
+(* object identifiers: every position that takes caller-chosen arcs x every shape around the limits of the DER encoding
+   (first arc 0..2, second arc < 40 under 0 and 1, 40 * 2 + second arc must fit 64 bits under 2) *)
+OidPositions == {"custom", "eku", "dntype", "othername"}
+OidShapes == {"oid-empty", "one-arc", "first-arc-3", "second-arc-40", "second-arc-39", "huge-arc", "arc2-limit", "arc2-below-limit", "arc2-half", "later-arc-max", "1k-arcs"}
+OidClassName(p, sh) == CASE sh = "oid-empty" -> p \o "-oid-empty" [] OTHER -> p \o "-oid-" \o sh
+OidClasses == { OidClassName(p, sh) : p \in OidPositions, sh \in OidShapes }
+HostileClasses == OidClasses \cup
   { "crldp-uri-non-ascii", "crldp-uri-nul", "crldp-uri-empty", "crldp-uri-64k",
     "nc-dns-non-ascii", "nc-rfc822-non-ascii", "nc-dns-empty", "nc-dns-64k",
     "idp-uri-non-ascii", "idp-uri-empty",
-    "custom-oid-empty", "custom-oid-one-arc", "custom-oid-first-arc-3", "custom-oid-second-arc-40", "custom-oid-huge-arc", "custom-oid-1k-arcs",
-    "eku-oid-empty", "eku-oid-one-arc", "eku-oid-first-arc-3", "eku-oid-huge-arc",
-    "dntype-oid-empty", "dntype-oid-one-arc", "dntype-oid-first-arc-3", "dntype-oid-huge-arc",
-    "othername-oid-empty", "othername-oid-one-arc", "othername-oid-first-arc-3",
     "attr-oid-empty", "attr-oid-one-arc", "attr-values-empty", "attr-values-malformed",
     "custom-content-empty", "custom-content-malformed", "custom-content-1m",
     "year-minus-1", "year-minus-9999", "year-9999-offset-to-10000", "year-0-offset-to-minus-1", "year-9999", "year-0",
@@ -31,11 +33,7 @@ HostileClasses ==
 Applies(fn, cl) ==
   CASE fn = "crl_signed_by" -> cl \in {"idp-uri-non-ascii", "idp-uri-empty", "year-minus-1", "year-minus-9999", "year-9999-offset-to-10000", "year-0-offset-to-minus-1",
                                         "year-9999", "year-0", "crlnumber-empty", "crlnumber-1m", "revoked-serial-1m", "serial-empty", "empty-everything"}
-    [] fn = "serialize_request" -> cl \in {"custom-oid-empty", "custom-oid-one-arc", "custom-oid-first-arc-3", "custom-oid-second-arc-40", "custom-oid-huge-arc", "custom-oid-1k-arcs",
-                                           "eku-oid-empty", "eku-oid-one-arc", "eku-oid-first-arc-3", "eku-oid-huge-arc",
-                                           "dntype-oid-empty", "dntype-oid-one-arc", "dntype-oid-first-arc-3", "dntype-oid-huge-arc",
-                                           "othername-oid-empty", "othername-oid-one-arc", "othername-oid-first-arc-3",
-                                           "attr-oid-empty", "attr-oid-one-arc", "attr-values-empty", "attr-values-malformed",
+    [] fn = "serialize_request" -> cl \in OidClasses \cup {"attr-oid-empty", "attr-oid-one-arc", "attr-values-empty", "attr-values-malformed",
                                            "custom-content-empty", "custom-content-malformed", "dn-value-64k", "dn-64-attributes", "san-1k-entries",
                                            "printable-question-mark", "ku-duplicates", "empty-everything"}
     [] OTHER -> cl \notin {"idp-uri-non-ascii", "idp-uri-empty", "crlnumber-empty", "crlnumber-1m", "revoked-serial-1m",
